@@ -201,5 +201,89 @@ def flattenedFieldsSkeleton : List Fn := [
             .eff "continue" ]
           [],
         .eff "set seenJSONNames[field.JSONName]" ],
-      .ret "<expr>, nil" ] } ]
+      .ret "<expr>, nil" ] },
+  { name := "goStructType.WriteDefinition", body := [
+      .eff "call structDescription(typ)",
+      .eff "call writeDescription(w, structDescription(typ))",
+      .eff "call fmt.Fprintf(w, \"type %s struct {\\n\", typ.GoName)",
+      .loop "range typ.Fields" [
+        .eff "call writeDescription(w, field.Description)",
+        .ite "field.Omitempty"
+          []
+          [],
+        .eff "call field.NeedsMarshaling()",
+        .ite "field.NeedsMarshaling()"
+          []
+          [],
+        .eff "call field.GoType.Reference()",
+        .eff "call fmt.Fprintf(w, \"\\t%s %s `json:%s`\\n\", field.GoName, field.GoType.Reference(), jsonTag)" ],
+      .eff "call fmt.Fprintf(w, \"}\\n\")",
+      .eff "call typ.FlattenedFields()",
+      .ite "err != nil"
+        [
+          .ret "err" ]
+        [],
+      .loop "range flattened" [
+        .eff "call writeDescription(w, description)",
+        .eff "call field.GoType.Reference()",
+        .eff "call fmt.Fprintf(w, \"func (v *%s) Get%s() %s { return v.%s }\\n\", typ.GoName, field.GoName, field.GoType.Reference(), field.Selector)" ],
+      .eff "call typ.NeedsMarshaling()",
+      .ite "typ.NeedsMarshaling()"
+        [
+          .eff "call g.render(\"unmarshal.go.tmpl\", w, typ)",
+          .ite "err != nil"
+            [
+              .ret "err" ]
+            [],
+          .eff "call g.render(\"marshal.go.tmpl\", w, typ)",
+          .ite "err != nil"
+            [
+              .ret "err" ]
+            [] ]
+        [],
+      .ret "nil" ] },
+  { name := "goStructType.NeedsMarshaling", body := [
+      .loop "range typ.Fields" [
+        .eff "call f.NeedsMarshaling()",
+        .ite "f.NeedsMarshaling()"
+          [
+            .ret "true" ]
+          [] ],
+      .ret "false" ] },
+  { name := "goStructField.NeedsMarshaling", body := [
+      .eff "call field.marshaler()",
+      .eff "call field.unmarshaler()",
+      .ret "<expr>" ] },
+  { name := "goInterfaceType.WriteDefinition", body := [
+      .eff "call interfaceDescription(typ)",
+      .eff "call writeDescription(w, interfaceDescription(typ))",
+      .eff "call fmt.Fprintf(w, \"type %s interface {\\n\", typ.GoName)",
+      .eff "call fmt.Fprintf(w, \"\\t%s()\\n\", implementsMethodName)",
+      .loop "range typ.SharedFields" [
+        .ite "sharedField.GoName == \"\""
+          [
+            .eff "call sharedField.GoType.Reference()",
+            .eff "call fmt.Fprintf(w, \"\\t%s\\n\", sharedField.GoType.Reference())",
+            .eff "continue" ]
+          [],
+        .ite "sharedField.GraphQLName == \"__typename\""
+          []
+          [
+            .ite "sharedField.Description != \"\""
+              []
+              [] ],
+        .eff "call writeDescription(w, description)",
+        .eff "call sharedField.GoType.Reference()",
+        .eff "call fmt.Fprintf(w, \"\\t%s() %s\\n\", methodName, sharedField.GoType.Reference())" ],
+      .eff "call fmt.Fprintf(w, \"}\\n\")",
+      .loop "range typ.Implementations" [
+        .eff "call impl.Reference()",
+        .eff "call fmt.Fprintf(w, \"func (v *%s) %s() {}\\n\", impl.Reference(), implementsMethodName)" ],
+      .eff "call g.render(\"unmarshal_helper.go.tmpl\", w, typ)",
+      .ite "err != nil"
+        [
+          .ret "err" ]
+        [],
+      .eff "call g.render(\"marshal_helper.go.tmpl\", w, typ)",
+      .ret "<call>" ] } ]
 end Genq.Extracted
